@@ -2,7 +2,7 @@
 import numpy as np
 
 RTOL = 1e-9
-ATOL = 1e-280
+ATOL = 1e-250  # products of hundreds of tiny factors underflow differently in numpy and torch
 
 
 def lin(y, semiring: str):
